@@ -42,6 +42,24 @@ def load_inventory():
         return json.load(fh)
 
 
+def fingerprint(fn_node):
+    """name-independent tokens of a function body (public attribute / call / keyword names, string constants,
+    statement kinds) - used only to recognise a *renamed* inventory function"""
+    toks = set()
+    for n in ast.walk(fn_node):
+        if isinstance(n, ast.Attribute) and not n.attr.startswith('_'):
+            toks.add('.' + n.attr)
+        elif isinstance(n, ast.Constant) and isinstance(n.value, str) and 0 < len(n.value) <= 60:
+            toks.add('s:' + n.value)
+        elif isinstance(n, ast.keyword) and n.arg:
+            toks.add('k:' + n.arg)
+        elif isinstance(n, ast.Call) and isinstance(n.func, ast.Name) and not n.func.id.startswith('_'):
+            toks.add('c:' + n.func.id)
+        elif isinstance(n, (ast.For, ast.AsyncFor, ast.While, ast.Try, ast.With, ast.AsyncWith, ast.Raise, ast.Yield, ast.YieldFrom, ast.Await, ast.Return, ast.Delete, ast.Assert)):
+            toks.add('#' + type(n).__name__)
+    return sorted(toks)
+
+
 class Refuse(Exception):
     pass
 
@@ -332,6 +350,7 @@ class Normalizer:
         has disappeared and this one looks like it (same kind, similar size): then it is that function under a new
         name and stays opaque (renaming a nested function must not change what the rules see)."""
         self.canonical = {}
+        self.renames = []
         for rel, defs in self.defs.items():
             inv = self.inv.get(rel)
             if inv is None:
@@ -351,12 +370,16 @@ class Normalizer:
                     for c in unknown:
                         a = c.node.args
                         me = {'nargs': len(a.posonlyargs + a.args + a.kwonlyargs), 'async': isinstance(c.node, ast.AsyncFunctionDef), 'gen': any(isinstance(x, (ast.Yield, ast.YieldFrom)) for x in _local_walk(c.node)), 'size': sum(1 for _ in ast.walk(c.node))}
+                        mytoks = set(fingerprint(c.node))
                         for q in missing:
                             p_ = prof.get(q)
                             if p_ is None or p_['async'] != me['async'] or p_['gen'] != me['gen']:
                                 continue
-                            sim = (1.0 if p_['nargs'] == me['nargs'] else 0.6) * (1 - abs(p_['size'] - me['size']) / max(p_['size'], me['size'], 1))
-                            if sim >= 0.5:
+                            size_sim = 1 - abs(p_['size'] - me['size']) / max(p_['size'], me['size'], 1)
+                            toks = set(p_.get('tokens', []))
+                            jac = (len(toks & mytoks) / len(toks | mytoks)) if (toks or mytoks) else 1.0
+                            sim = (1.0 if p_['nargs'] == me['nargs'] else 0.7) * (0.35 * size_sim + 0.65 * jac)
+                            if sim >= 0.55:
                                 cands.append((sim, id(c), c, q))
                     used_c, used_q = set(), set()
                     for sim, _i, c, q in sorted(cands, key=lambda x: -x[0]):
@@ -365,7 +388,21 @@ class Normalizer:
                         used_c.add(id(c))
                         used_q.add(q)
                         self.canonical[id(c)] = q
-                        self.log.append(f'{rel}: {prefix}{c.name} is taken to be the renamed {q}')
+                        self.renames.append((rel, c, q[len(prefix):]))
+                        self.log.append(f'{rel}: {prefix}{c.name} is taken to be the renamed {q} (similarity {sim:.2f})')
+                    # by elimination: one function of the scope vanished, one unknown function of the same kind appeared
+                    rest_q = [q for q in missing if q not in used_q]
+                    rest_c = [c for c in unknown if id(c) not in used_c]
+                    if len(rest_q) == 1 and len(rest_c) == 1:
+                        c, q = rest_c[0], rest_q[0]
+                        p_ = prof.get(q)
+                        a = c.node.args
+                        same_kind = p_ is not None and p_['async'] == isinstance(c.node, ast.AsyncFunctionDef) and p_['gen'] == any(isinstance(x, (ast.Yield, ast.YieldFrom)) for x in _local_walk(c.node)) and p_['nargs'] == len(a.posonlyargs + a.args + a.kwonlyargs) + (1 if a.vararg else 0) * 0
+                        called = any(isinstance(n, ast.Name) and n.id == c.name or isinstance(n, ast.Attribute) and n.attr == c.name for t in self.trees.values() for n in ast.walk(t))
+                        if same_kind and called:
+                            self.canonical[id(c)] = q
+                            self.renames.append((rel, c, q[len(prefix):]))
+                            self.log.append(f'{rel}: {prefix}{c.name} is taken to be the renamed {q} (the only candidate of its kind)')
                 for c in children:
                     sub = [x for x in defs if x.owner is c]
                     if sub:
@@ -374,6 +411,95 @@ class Normalizer:
             scope([d for d in defs if d.owner is None and d.cls is None], '')
             for cname, cnode in self.classes[rel].items():
                 scope([d for d in defs if d.owner is None and d.cls is cnode], cname + '.')
+        self._rename_back()
+        self._rename_constants_back()
+
+    def _rename_constants_back(self):
+        """a module / class constant of the inventory that disappeared while an unknown constant with the same value
+        appeared in the same scope is that constant under a new name"""
+        for rel, tree in self.trees.items():
+            inv = self.inv.get(rel)
+            if inv is None or 'const_values' not in inv:
+                continue
+            known = set(inv['constants'])
+            values = inv['const_values']
+
+            def scope(body, prefix, attr_refs):
+                present = {}
+                for st in body:
+                    if isinstance(st, ast.Assign) and len(st.targets) == 1 and isinstance(st.targets[0], ast.Name):
+                        present[st.targets[0].id] = st
+                missing = [q for q in known if q.startswith(prefix) and '.' not in q[len(prefix):] and q[len(prefix):] not in present]
+                unknown = [n for n in present if prefix + n not in known]
+                for n in unknown:
+                    dump = ast.dump(present[n].value)[:400]
+                    cands = [q for q in missing if values.get(q) == dump]
+                    if len(cands) != 1:
+                        continue
+                    old = cands[0][len(prefix):]
+                    missing.remove(cands[0])
+                    for t in self.trees.values():
+                        for x in ast.walk(t):
+                            if isinstance(x, ast.Name) and x.id == n and (t is tree) and not attr_refs:
+                                x.id = old
+                            elif isinstance(x, ast.Attribute) and x.attr == n:
+                                x.attr = old
+                            elif isinstance(x, ast.Name) and x.id == n and attr_refs and t is tree and x is present[n].targets[0]:
+                                x.id = old
+                    present[n].targets[0].id = old
+                    self.stats['renamed_back'] = self.stats.get('renamed_back', 0) + 1
+                    self.log.append(f'{rel}: constant {prefix}{n} is taken to be the renamed {prefix}{old}')
+
+            scope(tree.body, '', False)
+            for cname, c in self.classes.get(rel, {}).items():
+                scope(c.body, cname + '.', True)
+
+    def _rename_back(self):
+        """give recognised renamed functions their inventory name again (definition and every reference), so that
+        rules that name an anchor still find it"""
+        for rel, d, old_name in self.renames:
+            new_name = d.name
+            if new_name == old_name:
+                continue
+            tree = self.trees[rel]
+            if d.owner is not None:
+                # nested function: references live in the enclosing function
+                scope_nodes = [d.owner.node]
+                attr_refs = False
+            elif d.cls is not None:
+                scope_nodes = list(self.trees.values())
+                attr_refs = True
+            else:
+                scope_nodes = [tree]
+                attr_refs = False
+            clash = any(isinstance(n, FuncNode) and n.name == old_name and n is not d.node for sn in scope_nodes[:1] for n in ast.walk(sn)) if not attr_refs else any(isinstance(st, FuncNode) and st.name == old_name for st in d.cls.body)
+            if clash:
+                continue
+            for sn in scope_nodes:
+                for n in ast.walk(sn):
+                    if attr_refs and isinstance(n, ast.Attribute) and n.attr == new_name:
+                        n.attr = old_name
+                    elif not attr_refs and isinstance(n, ast.Name) and n.id == new_name:
+                        n.id = old_name
+                    elif not attr_refs and d.owner is None and isinstance(n, ast.Attribute) and n.attr == new_name and isinstance(n.value, ast.Name):
+                        n.attr = old_name  # module.function references from this module
+            if d.owner is None and d.cls is None:
+                # references from other modules: <module alias>.<name>
+                for other in self.trees.values():
+                    if other is tree:
+                        continue
+                    for n in ast.walk(other):
+                        if isinstance(n, ast.Attribute) and n.attr == new_name:
+                            n.attr = old_name
+                        elif isinstance(n, ast.ImportFrom):
+                            for al in n.names:
+                                if al.name == new_name:
+                                    if al.asname is None:
+                                        al.asname = new_name
+                                    al.name = old_name
+            d.node.name = old_name
+            d.qual = d.qual[: len(d.qual) - len(new_name)] + old_name
+            self.stats['renamed_back'] = self.stats.get('renamed_back', 0) + 1
 
     # ------------------------------------------------------------- resolution
     def _class_bases(self, rel, cls: ast.ClassDef):
@@ -1153,9 +1279,117 @@ class Normalizer:
                 self._thread_blocks(d.node, d.node)
             self._dehoist(d, ctx_names)
             self._unpartial(d.node)
+            self._scalarize(d)
         finally:
             d.busy = False
             d.expanded = True
+
+    # ---------------------------------------------------- records and copies
+    def _record_fields(self, rel, cname):
+        c = self.classes.get(rel, {}).get(cname)
+        if c is None:
+            return None
+        bases = [b.id if isinstance(b, ast.Name) else getattr(b, 'attr', None) for b in c.bases]
+        decos = [d.id if isinstance(d, ast.Name) else (d.func.id if isinstance(d, ast.Call) and isinstance(d.func, ast.Name) else getattr(d, 'attr', getattr(getattr(d, 'func', None), 'attr', None))) for d in c.decorator_list]
+        if 'NamedTuple' not in bases and 'dataclass' not in decos:
+            return None
+        inv = self.inv.get(rel, {})
+        if cname in inv.get('classes', []):
+            return None  # a record type of the design tree: the rules know it
+        return [st.target.id for st in c.body if isinstance(st, ast.AnnAssign) and isinstance(st.target, ast.Name)]
+
+    def _scalarize(self, d: _Def):
+        """new private record types used as local bundles (`plan = _Plan(a=x, b=y)` ... `plan.a`) are unpacked again;
+        `a, b = (x, y)` is split; single-assignment copies `a = b` of single-assignment locals are propagated"""
+        fn = d.node
+        for _round in range(3):
+            changed = False
+            stores = {}
+            for n in _local_walk(fn):
+                if isinstance(n, ast.Name) and isinstance(n.ctx, (ast.Store, ast.Del)):
+                    stores[n.id] = stores.get(n.id, 0) + 1
+            a = fn.args
+            params = {x.arg for x in a.posonlyargs + a.args + a.kwonlyargs} | ({a.vararg.arg} if a.vararg else set()) | ({a.kwarg.arg} if a.kwarg else set())
+            nested_names = set()
+            for n in ast.walk(fn):
+                if isinstance(n, FuncNode + (ast.Lambda,)) and n is not fn:
+                    for x in ast.walk(n):
+                        if isinstance(x, ast.Name):
+                            nested_names.add(x.id)
+
+            def blocks(node):
+                for fld in ('body', 'orelse', 'finalbody'):
+                    blk = getattr(node, fld, None)
+                    if isinstance(blk, list) and blk and isinstance(blk[0], ast.stmt):
+                        yield blk
+                        for st in blk:
+                            if not isinstance(st, FuncNode + (ast.ClassDef,)):
+                                yield from blocks(st)
+                for h in getattr(node, 'handlers', []) or []:
+                    yield h.body
+                    for st in h.body:
+                        yield from blocks(st)
+
+            for blk in list(blocks(fn)):
+                i = 0
+                while i < len(blk):
+                    st = blk[i]
+                    # a, b = (x, y)
+                    if isinstance(st, ast.Assign) and len(st.targets) == 1 and isinstance(st.targets[0], ast.Tuple) and isinstance(st.value, ast.Tuple) and len(st.targets[0].elts) == len(st.value.elts) and all(isinstance(t, ast.Name) for t in st.targets[0].elts) and not any(isinstance(v, ast.Starred) for v in st.value.elts):
+                        tnames = {t.id for t in st.targets[0].elts}
+                        vnames = {x.id for v in st.value.elts for x in ast.walk(v) if isinstance(x, ast.Name)}
+                        if not (tnames & vnames):
+                            new = [ast.copy_location(ast.Assign(targets=[t], value=v), st) for t, v in zip(st.targets[0].elts, st.value.elts)]
+                            blk[i : i + 1] = new
+                            changed = True
+                            continue
+                        if all(isinstance(v, ast.Name) for v in st.value.elts):
+                            new = [ast.copy_location(ast.Assign(targets=[t], value=v), st) for t, v in zip(st.targets[0].elts, st.value.elts) if t.id != v.id]
+                            if all(t.id == v.id or t.id not in vnames - {v.id} for t, v in zip(st.targets[0].elts, st.value.elts)) and len(new) < len(st.value.elts):
+                                # identity components drop out (x, y = (x, z))
+                                if not any(t.id in {w.id for w in st.value.elts if w.id != v.id} for t, v in zip(st.targets[0].elts, st.value.elts) if t.id != v.id):
+                                    blk[i : i + 1] = new or [ast.copy_location(ast.Pass(), st)]
+                                    changed = True
+                                    continue
+                    # p = _Record(a=x, b=y) with p only ever read as p.<field>
+                    if isinstance(st, ast.Assign) and len(st.targets) == 1 and isinstance(st.targets[0], ast.Name) and isinstance(st.value, ast.Call) and isinstance(st.value.func, ast.Name) and stores.get(st.targets[0].id) == 1:
+                        fields = self._record_fields(d.rel, st.value.func.id)
+                        pname = st.targets[0].id
+                        if fields is not None and pname not in nested_names and not any(isinstance(x, ast.Starred) for x in st.value.args) and all(k.arg for k in st.value.keywords):
+                            vals = dict(zip(fields, st.value.args))
+                            vals.update({k.arg: k.value for k in st.value.keywords})
+                            uses = [n for n in ast.walk(fn) if isinstance(n, ast.Name) and n.id == pname and isinstance(n.ctx, ast.Load)]
+                            parents = {}
+                            for n in ast.walk(fn):
+                                for c in ast.iter_child_nodes(n):
+                                    parents[id(c)] = n
+                            ok = set(vals) == set(fields) and all(isinstance(parents.get(id(u)), ast.Attribute) and parents[id(u)].attr in vals and isinstance(parents[id(u)].ctx, ast.Load) for u in uses)
+                            simple = all(isinstance(v, (ast.Name, ast.Constant)) for v in vals.values())
+                            if ok and simple and all(stores.get(v.id, 0) <= 1 or v.id in params for v in vals.values() if isinstance(v, ast.Name)):
+                                for u in uses:
+                                    at = parents[id(u)]
+                                    self._replace_everywhere(fn, at, ast.copy_location(copy.deepcopy(vals[at.attr]), at))
+                                del blk[i]
+                                if not blk:
+                                    blk.append(ast.copy_location(ast.Pass(), st))
+                                self.stats['idioms'] += 1
+                                changed = True
+                                continue
+                    # a = b (both bound once, b before a): a is b
+                    if isinstance(st, ast.Assign) and len(st.targets) == 1 and isinstance(st.targets[0], ast.Name) and isinstance(st.value, ast.Name):
+                        an, bn = st.targets[0].id, st.value.id
+                        if an != bn and stores.get(an) == 1 and an not in params and (stores.get(bn, 0) == 1 and bn not in params or stores.get(bn, 0) == 0 and bn in params) and an not in nested_names and (an.endswith(tuple(f'__{k}' for k in range(1, 400))) or bn.endswith(tuple(f'__{k}' for k in range(1, 400))) or getattr(st, '_inlined_from', None)):
+                            for n in ast.walk(fn):
+                                if isinstance(n, ast.Name) and n.id == an and isinstance(n.ctx, ast.Load):
+                                    n.id = bn
+                            del blk[i]
+                            if not blk:
+                                blk.append(ast.copy_location(ast.Pass(), st))
+                            changed = True
+                            continue
+                    i += 1
+            if not changed:
+                break
 
     # ------------------------------------------------------------- partial()
     @staticmethod
